@@ -1,6 +1,7 @@
 """./check selftest determinism [Cxx ...]   -- same seeds, twice, two worker counts, two hash seeds
    ./check selftest mutants [Cxx ...]       -- every mutants/<Cxx>-*.patch must be caught
                                                (…-EQUIV-… patches must stay clean)
+   ./check selftest seeds [Cxx ...]         -- every seeded/<id>/patch.diff (sub-agent changes) must be caught
 """
 import glob
 import importlib
@@ -64,12 +65,15 @@ def determinism(props):
     return 1 if bad else 0
 
 
-def mutants(props):
-    pats = sorted(glob.glob(os.path.join(VERIF, "mutants", "*.patch")))
+def mutants(props, seeds=False):
+    if seeds:
+        pats = sorted(glob.glob(os.path.join(VERIF, "seeded", "*", "patch.diff")))
+    else:
+        pats = sorted(glob.glob(os.path.join(VERIF, "mutants", "*.patch")))
     wrong = 0
     rows = []
     for path in pats:
-        name = os.path.basename(path)
+        name = os.path.basename(os.path.dirname(path)) if seeds else os.path.basename(path)
         prop = name.split("-")[0]
         if props and prop not in props:
             continue
@@ -114,5 +118,7 @@ def main(argv):
         return determinism(props)
     if argv[0] == "mutants":
         return mutants(props if len(argv) > 1 else [])
+    if argv[0] == "seeds":
+        return mutants(props if len(argv) > 1 else [], seeds=True)
     print(__doc__)
     return 2
